@@ -5,9 +5,10 @@ rows = []
 for f in sorted(glob.glob('/verif/seeded/*/meta.json')):
     m = json.load(open(f))
     needs = m['needs_to_manifest']
-    missed = ('missed' in needs)
+    missed = ('missed' in needs) or not m['caught_by_quick_checks']
     rows.append((m['id'], m['property'], ', '.join(m['caught_by_quick_checks']) or '—', 'no' if missed else 'yes', needs.replace('|', '\\|')))
 first = sum(1 for r in rows if r[3] == 'yes')
+uncaught = [r[0] for r in rows if r[2] == '—']
 txt = []
 txt.append('## 10. Seeded changes and which check catches which\n')
 txt.append('`/verif/seeded/<id>/` holds %d changes to xarantolus/ax (`patch.diff`), each with a demonstration\n'
@@ -16,12 +17,14 @@ txt.append('`/verif/seeded/<id>/` holds %d changes to xarantolus/ax (`patch.diff
            'that worktree that it compiles, that the repository\'s unedited suite still passes (2300/2300), and that\n'
            'the demonstration fails with the change and passes without it. `tools/eval_mutant.sh` applies a patch to\n'
            '/repo, runs quick checks (evidence and replays redirected to `target/`), and undoes it.\n' % len(rows))
-txt.append('Two rounds were run (ids …-a/-b: round 1; …-c/-d: round 2, whose agents were told which ideas had been\n'
-           'used and asked for changes of a different kind; round-2 changes that merely repeated a round-1 change\n'
+txt.append('Four rounds were run (…-a/-b: round 1; …-c/-d: round 2, whose agents were told which kinds of ideas had\n'
+           'been used and asked for something different; round 3: refactoring-style regressions and state carried\n'
+           'across instructions; round 4: three changes each, one per mechanism anchored in the property record; round-2 changes that merely repeated a round-1 change\n'
            'were verified, evaluated — all caught — and not archived). **%d of the %d changes were caught by a quick\n'
            'check the first time it saw them; the other %d were missed and led to a stronger generator or oracle**\n'
-           '(column "first run"; what was missing is in the last column and in each `meta.json`). All %d are caught\n'
-           'now; `tools/matrix.sh` re-runs the whole matrix.\n' % (first, len(rows), len(rows) - first, len(rows)))
+           '(column "first run"; what was missing is in the last column and in each `meta.json`). %d are caught now;\n'
+           'not caught: %s (the reasons — both are places where the harness cannot demand more without raising\n'
+           'alarms on legitimate changes — are in their rows). `tools/matrix.sh` re-runs the whole matrix.\n' % (first, len(rows), len(rows) - first, len(rows) - len(uncaught), ', '.join(uncaught) or 'none'))
 txt.append('| id | property | caught by (quick) | first run | what it needs to manifest / why it was missed |')
 txt.append('|---|---|---|---|---|')
 for r in rows:
